@@ -23,7 +23,7 @@ Definition mem_str (s : str) (l : list str) : bool := existsb (str_eqb s) l.
 
 (* ------------------------------------------------------------------ dialect parameters *)
 
-Inductive dialect := Sqlite | Postgresql | Mysql | Mssql | Oracle.
+Inductive dialect := Sqlite | Postgresql | Mysql | Mssql | Oracle | Mariadb.
 
 Record qspec := mkQ {
   q_open : N;                   (* IdentifierPreparer.initial_quote *)
@@ -91,6 +91,17 @@ Definition quote (q:qspec) (s:str) : option str :=
   | Some false => Some s
   end.
 
+(* a name is a plain str or a sqlalchemy.sql.elements.quoted_name carrying quote=None / True / False *)
+Inductive qflag := Plain | QNone | QTrue | QFalse.
+
+(* IdentifierPreparer.quote(ident): force = getattr(ident, "quote", None) *)
+Definition quote_f (q:qspec) (f:qflag) (s:str) : option str :=
+  match f with
+  | QTrue => Some (quote_identifier q s)       (* forced: always quoted, even the empty string *)
+  | QFalse => Some s                           (* forced: never quoted *)
+  | Plain | QNone => quote q s
+  end.
+
 (* ------------------------------------------------------------------ alembic.ddl.base helpers *)
 
 (* str.split(".") *)
@@ -117,11 +128,14 @@ Fixpoint map_opt {A B} (f:A -> option B) (l:list A) : option (list B) :=
               end
   end.
 
-(* quote_dotted(name, quote) for a plain str *)
-Definition quote_dotted (q:qspec) (s:str) : option str :=
-  match map_opt (quote q) (split_dot s) with
-  | Some parts => Some (join_dot parts)
-  | None => None
+(* quote_dotted(name, quote): a quoted_name is not split *)
+Definition quote_dotted (q:qspec) (f:qflag) (s:str) : option str :=
+  match f with
+  | Plain => match map_opt (quote q) (split_dot s) with
+             | Some parts => Some (join_dot parts)
+             | None => None
+             end
+  | _ => quote_f q f s
   end.
 
 (* `if schema:` — None and "" are both "no schema" *)
@@ -132,17 +146,26 @@ Definition schema_given (schema : option str) : option str :=
   end.
 
 (* format_table_name(compiler, name, schema) *)
-Definition format_table_name (q:qspec) (name:str) (schema:option str) : option str :=
+Definition format_table_name (q:qspec) (fn:qflag) (name:str) (fs:qflag) (schema:option str) : option str :=
   match schema_given schema with
-  | Some sc => match quote_dotted q sc, quote q name with
+  | Some sc => match quote_dotted q fs sc, quote_f q fn name with
                | Some a, Some b => Some (a ++ 46 :: b)
                | _, _ => None
                end
-  | None => quote q name
+  | None => quote_f q fn name
   end.
 
 (* format_column_name *)
-Definition format_column_name (q:qspec) (name:str) : option str := quote q name.
+Definition format_column_name (q:qspec) (f:qflag) (name:str) : option str := quote_f q f name.
+
+(* SQLAlchemy's IdentifierPreparer.format_table(table): quote(name), prefixed by quote_schema(schema) + "." —
+   the schema is ONE identifier here, never split at dots (used by alembic's MySQL DROP CHECK visitor) *)
+Definition format_table_sa (q:qspec) (fn:qflag) (name:str) (fs:qflag) (schema:option str) : option str :=
+  match quote_f q fn name, schema_given schema with
+  | Some b, Some sc => match quote_f q fs sc with Some a => Some (a ++ 46 :: b) | None => None end
+  | Some b, None => Some b
+  | None, _ => None
+  end.
 
 (* alembic.ddl.mssql._sql_literal: str(value).replace("'", "''") *)
 Definition sql_literal (s:str) : str := flat_map (fun c => if c =? 39 then [39; 39] else [c]) s.
